@@ -26,14 +26,14 @@ def build(prop, opt='-O2', fresh=True, defs=(), cc='gcc', tag=''):
     # the other preprocessor branch of Byteorder.h, as a second set of functions
     o2 = os.path.join(b, 'world' + opt + tag + ('' if cc == 'gcc' else '-' + cc), 'wrap_bo2.o')
     o3 = os.path.join(b, 'world' + opt + tag + ('' if cc == 'gcc' else '-' + cc), 'wrap_bo3.o')
-    core.par([[cc, '-std=gnu99', opt, '-g', '-I' + os.path.join(core.REPO, 'include'), '-I' + os.path.join(core.REPO, 'src'), '-DW_BO=w_bo2', '-DW_FORCE_BIG', '-Wno-builtin-macro-redefined',
+    core.par([[cc, '-std=gnu99', opt, '-g', *core.lib_flags(), '-DW_BO=w_bo2', '-DW_FORCE_BIG', '-Wno-builtin-macro-redefined',
                '-c', os.path.join(core.ROOT, 'world', 'wrap_bo.c'), '-o', o2],
               # a toolchain that does not predefine the byte-order macros (old gcc, some embedded compilers): little-endian host
-              [cc, '-std=gnu99', opt, '-g', '-I' + os.path.join(core.REPO, 'include'), '-I' + os.path.join(core.REPO, 'src'), '-DW_BO=w_bo3', '-U__BYTE_ORDER__', '-U__ORDER_LITTLE_ENDIAN__', '-U__ORDER_BIG_ENDIAN__',
+              [cc, '-std=gnu99', opt, '-g', *core.lib_flags(), '-DW_BO=w_bo3', '-U__BYTE_ORDER__', '-U__ORDER_LITTLE_ENDIAN__', '-U__ORDER_BIG_ENDIAN__',
                '-U__ORDER_PDP_ENDIAN__', '-Wno-builtin-macro-redefined', '-c', os.path.join(core.ROOT, 'world', 'wrap_bo.c'), '-o', o3]])
     # ... and the helpers in a translation unit that included the platform's own byte-order headers first
     o4 = os.path.join(b, 'world' + opt + tag + ('' if cc == 'gcc' else '-' + cc), 'wrap_bo4.o')
-    core.par([[cc, '-std=gnu99', opt, '-g'] + list(defs) + ['-I' + os.path.join(core.REPO, 'include'), '-I' + os.path.join(core.REPO, 'src'), '-I' + os.path.join(core.ROOT, 'world'), '-DW_BO=w_bo4', '-D_GNU_SOURCE', '-include', 'byteswap.h', '-include', 'endian.h',
+    core.par([[cc, '-std=gnu99', opt, '-g'] + list(defs) + [*core.lib_flags(), '-I' + os.path.join(core.ROOT, 'world'), '-DW_BO=w_bo4', '-D_GNU_SOURCE', '-include', 'byteswap.h', '-include', 'endian.h',
                '-include', 'arpa/inet.h', '-include', 'sys/param.h', '-include', 'netinet/in.h', '-c', os.path.join(core.ROOT, 'world', 'wrap_bo.c'), '-o', o4]])
     nobjs = core.build_native(os.path.join(b, 'native'), g, ['common.c', 'explore_ser.c'])
     return core.link(os.path.join(b, 'explore_ser' + opt + tag + ('' if cc == 'gcc' else cc)), nobjs + wobjs + [o2, o3, o4])
